@@ -282,4 +282,7 @@ def tasks(tier):
                 out.append(task(MOD, 'run', P, label=f'stmt/{fam}/w{w}/u{int(unchecked)}', cost=15, family=fam, w=w, unchecked=unchecked))
         if tier == 'quick':
             out.append(task(MOD, 'run', P, label=f'stmt/incassign/w{w}/u1', cost=15, family='incassign', w=w, unchecked=True))
+            # a word size that is not a power of two for the families that lay out slots and arrays
+            for fam in ('decl', 'decl-array'):
+                out.append(task(MOD, 'run', P, label=f'stmt/{fam}/w3/u0', cost=15, family=fam, w=3, unchecked=False))
     return out
